@@ -174,7 +174,7 @@ RootSch(kind, card, pos) ==
       [] pos = "flat"      -> ObjS("Root", <<Sib, PFlat("flat", Box(kind, card))>>)
       [] pos = "flat2"     -> ObjS("Root", <<Sib, PFlat("outer", ObjS("Mid", <<P("midTag", "one", LeafS("string")), PFlat("flat", Box(kind, card))>>))>>)
       [] pos = "flat3"     -> ObjS("Root", <<Sib, PFlat("outer", ObjS("Mid", <<P("midTag", "one", LeafS("string")),
-                                    PFlat("inner", ObjS("Mid2", <<P("mid2Tag", "one", LeafS("string")), PFlat("flat", Box(kind, card))>>))>>))>>)
+                                    PFlat("inner", ObjS("MidInner", <<P("innerTag", "one", LeafS("string")), PFlat("flat", Box(kind, card))>>))>>))>>)
       [] pos = "exposed"   -> ObjS("Root", <<Sib, PExp("pick", OneofS("PickX", <<P("armA", "one", Box(kind, card)), P("alt", "one", LeafS("string"))>>))>>)
       [] pos = "expdirect" -> ObjS("Root", <<Sib, PExp("pick", OneofS("PickX", <<FocusProp(kind, "one"), P("alt", "one", LeafS("string"))>>))>>)
       [] pos = "rootoneof" -> OneofS("Root", <<P("armA", "one", Box(kind, card)), P("armB", "one", Other)>>)
@@ -231,7 +231,7 @@ RootVal(pos, sibset, tagged, fm) ==
       [] pos = "flat"      -> ObjV(SibM(sibset) \o <<KV("flat", BoxV(tagged, fm))>>)
       [] pos = "flat2"     -> ObjV(SibM(sibset) \o <<KV("outer", ObjV(<<KV("midTag", Atom("ascii")), KV("flat", BoxV(tagged, fm))>>))>>)
       [] pos = "flat3"     -> ObjV(SibM(sibset) \o <<KV("outer", ObjV(<<KV("midTag", Atom("ascii")),
-                                    KV("inner", ObjV(<<KV("mid2Tag", Atom("html")), KV("flat", BoxV(tagged, fm))>>))>>))>>)
+                                    KV("inner", ObjV(<<KV("innerTag", Atom("html")), KV("flat", BoxV(tagged, fm))>>))>>))>>)
       [] pos = "exposed"   -> ObjV(SibM(sibset) \o <<KV("pick", OneofV(<<KV("armA", BoxV(tagged, fm))>>))>>)
       [] pos = "expdirect" -> ObjV(SibM(sibset) \o (IF fm = <<>> THEN <<>> ELSE <<KV("pick", OneofV(fm))>>))
       [] pos = "rootoneof" -> OneofV(<<KV("armA", BoxV(tagged, fm))>>)
